@@ -26,6 +26,7 @@ import (
 	"time"
 
 	"github.com/algorand/msgp/msgp"
+	sqlite3 "github.com/mattn/go-sqlite3"
 	"pgregory.net/rapid"
 
 	"github.com/algorand/go-algorand/config"
@@ -34,7 +35,9 @@ import (
 	"github.com/algorand/go-algorand/data/transactions/verify"
 	"github.com/algorand/go-algorand/ledger/ledgercore"
 	"github.com/algorand/go-algorand/ledger/store/trackerdb"
+	"github.com/algorand/go-algorand/ledger/store/trackerdb/sqlitedriver"
 	"github.com/algorand/go-algorand/protocol"
+	"github.com/algorand/go-algorand/util/db"
 )
 
 const (
@@ -51,6 +54,8 @@ type c09Image struct {
 	confirmed  basics.Round // greatest r whose WaitForCommit(r)/Wait(r) had returned before the copy started
 	upper      basics.Round // number of blocks handed to AddBlock when the copy ended
 	firstStage bool         // taken around a catchpoint first stage
+	faults     string       // COMMIT failures injected before this image ("" = none)
+	forced     bool         // taken because a fault had just been injected
 	nontrivial bool
 }
 
@@ -69,6 +74,18 @@ type c09Rig struct {
 	curFirst     bool
 	curTx        int
 	parked       bool // the harness owns the flush schedule (else the registry flushes after every block flush)
+
+	// fault injection: a COMMIT of the block DB / tracker DB write connection is turned into a rollback by sqlite's
+	// commit hook (registered on the connections through database/sql's Conn.Raw; no source hook)
+	inject      bool
+	armBlock    atomic.Int32 // fail the n-th block DB commit from now (0 = disarmed)
+	armTracker  atomic.Int32
+	firedBlock  atomic.Int32
+	firedTrack  atomic.Int32
+	force       atomic.Int32 // image the next instants whatever the selection says
+	faultMu     sync.Mutex
+	faultLog    []string
+	hookedConns int
 
 	confirmed atomic.Uint64
 	upper     atomic.Uint64
@@ -215,12 +232,16 @@ func (g *c09Rig) commitEnd() {
 
 // c09QuickRate: in the quick tier one instant in N is imaged (keyed by the drawn seed, the instant and its occurrence
 // number), N per kind so that the ~15 images of a history are spread over the whole history and over the kinds.
-var c09QuickRate = map[string]uint64{"after-WaitForCommit": 10, "quiescent": 12, "between-AddBlock-calls": 4, "blocks-flushed": 7}
+var c09QuickRate = map[string]uint64{"after-WaitForCommit": 10, "quiescent": 12, "between-AddBlock-calls": 4, "blocks-flushed": 7, "after-forced-commit": 6}
 
 func (g *c09Rig) want(kind, key string) bool {
 	g.listMu.Lock()
 	defer g.listMu.Unlock()
 	g.occ[key]++
+	if g.force.Load() > 0 {
+		g.force.Add(-1)
+		return true
+	}
 	if g.taken >= g.maxTaken {
 		g.skipped["cap"]++
 		return false
@@ -273,7 +294,7 @@ func (g *c09Rig) snap(kind, ctx string, role int, firstStage bool) {
 	dir := filepath.Join(g.dir, fmt.Sprintf("img-%03d", seq))
 	err := c09CopyLedgerFiles(g.prefix, dir)
 	img := &c09Image{dir: dir, prefix: filepath.Join(dir, filepath.Base(g.prefix)), kind: kind, key: key, confirmed: confirmed,
-		upper: basics.Round(g.upper.Load()), firstStage: firstStage}
+		upper: basics.Round(g.upper.Load()), firstStage: firstStage, faults: g.faults()}
 	g.listMu.Lock()
 	if err != nil {
 		g.copyErrs = append(g.copyErrs, fmt.Sprintf("%s: %v", key, err))
@@ -355,6 +376,70 @@ func c09CopyFile(src, dst string) error {
 // ---------------------------------------------------------------------------------------------------------------
 // victim lifecycle
 
+func (g *c09Rig) faults() string {
+	g.faultMu.Lock()
+	defer g.faultMu.Unlock()
+	return strings.Join(g.faultLog, ",")
+}
+
+// commitHook is sqlite's commit hook: a non-zero return turns the COMMIT into a ROLLBACK and the COMMIT statement fails
+// with SQLITE_CONSTRAINT_COMMITHOOK (not a busy/locked error, so util/db does not retry it).
+func (g *c09Rig) commitHook(which string, arm, fired *atomic.Int32) func() int {
+	return func() int {
+		for {
+			v := arm.Load()
+			if v <= 0 {
+				return 0
+			}
+			if arm.CompareAndSwap(v, v-1) {
+				if v != 1 {
+					return 0
+				}
+				n := fired.Add(1)
+				g.faultMu.Lock()
+				g.faultLog = append(g.faultLog, fmt.Sprintf("%s-commit-failed#%d", which, n))
+				g.faultMu.Unlock()
+				g.force.Store(4) // the instants right after the failed commit are imaged
+				return 1
+			}
+		}
+	}
+}
+
+// c09HookConns registers the commit hook on the connections of a database/sql pool: three connections are taken at
+// once (more than the pool keeps idle), hooked through Conn.Raw and given back. A connection the pool opens later has no
+// hook: the injection then simply does not fire (counted).
+func c09HookConns(h *sql.DB, hook func() int) (int, error) {
+	ctx := context.Background()
+	var conns []*sql.Conn
+	defer func() {
+		for _, c := range conns {
+			c.Close()
+		}
+	}()
+	n := 0
+	for i := 0; i < 3; i++ {
+		c, err := h.Conn(ctx)
+		if err != nil {
+			return n, err
+		}
+		conns = append(conns, c)
+		err = c.Raw(func(dc any) error {
+			sc, ok := dc.(*sqlite3.SQLiteConn)
+			if !ok {
+				return fmt.Errorf("driver connection is %T", dc)
+			}
+			sc.RegisterCommitHook(hook)
+			return nil
+		})
+		if err != nil {
+			return n, err
+		}
+		n++
+	}
+	return n, nil
+}
+
 func (g *c09Rig) open() error {
 	l, err := OpenLedger(engcLogger(), g.prefix, false, g.genesis, g.cfg)
 	if err != nil {
@@ -363,6 +448,33 @@ func (g *c09Rig) open() error {
 	l.verifiedTxnCache = verify.GetMockedCache(true)
 	g.l = l
 	g.quiesce()
+	if g.inject {
+		// The tracker store is replaced by one built with the exported constructors on handles the rig can reach
+		// (sqlitedriver.Open = db.OpenPair + MakeStore), then reloadLedger() re-creates every tracker on it.
+		pair, err := db.OpenPair(g.prefix+".tracker.sqlite", false)
+		if err != nil {
+			return fmt.Errorf("second tracker store: %w", err)
+		}
+		pair.Rdb.SetLogger(engcLogger())
+		pair.Wdb.SetLogger(engcLogger())
+		old := l.trackerDBs
+		l.trackerDBs = sqlitedriver.MakeStore(pair)
+		l.setSynchronousMode(context.Background(), l.synchronousMode)
+		if err := l.reloadLedger(); err != nil {
+			return fmt.Errorf("reloadLedger on the replaced tracker store: %w", err)
+		}
+		old.Close()
+		g.quiesce()
+		nb, err := c09HookConns(l.blockDBs.Wdb.Handle, g.commitHook("block-db", &g.armBlock, &g.firedBlock))
+		if err != nil {
+			return fmt.Errorf("commit hook (block db): %w", err)
+		}
+		nt, err := c09HookConns(pair.Wdb.Handle, g.commitHook("tracker-db", &g.armTracker, &g.firedTrack))
+		if err != nil {
+			return fmt.Errorf("commit hook (tracker db): %w", err)
+		}
+		g.hookedConns = nb + nt
+	}
 	// install the spies; nothing is running (quiescent) and both locks that guard the slice are held
 	l.trackerMu.Lock()
 	l.trackers.mu.Lock()
@@ -660,6 +772,9 @@ func (c *c09Case) evalImage(t *rapid.T, img *c09Image) {
 	defer os.RemoveAll(img.dir)
 	vk := c.vk
 	desc := fmt.Sprintf("image %s (confirmed durable: %d, handed to AddBlock: %d)", img.key, img.confirmed, img.upper)
+	if img.faults != "" {
+		desc += " after injected faults [" + img.faults + "]"
+	}
 	peek, err := c09PeekImage(img)
 	if err != nil {
 		c.failf(t, "%s: the copied databases cannot be read with a plain sqlite connection: %v", desc, err)
@@ -743,6 +858,16 @@ func (c *c09Case) evalImage(t *rapid.T, img *c09Image) {
 	case "postCommitUnlocked-before-catchpoint-work", "postCommitUnlocked-after-catchpoint-work", "postCommit", "after-tracker-db-transaction":
 		nontrivial = img.firstStage
 	}
+	if img.faults != "" {
+		nontrivial = true
+		vk.Label("image-after-injected-commit-failure:" + img.kind)
+		if strings.Contains(img.faults, "block-db") {
+			vk.Label("image-after-failed-block-db-commit")
+		}
+		if strings.Contains(img.faults, "tracker-db") {
+			vk.Label("image-after-failed-tracker-db-commit")
+		}
+	}
 	c.images++
 	if nontrivial {
 		c.ntImgs++
@@ -761,7 +886,7 @@ func (c *c09Case) evalImage(t *rapid.T, img *c09Image) {
 		vk.Label("continued-with-remaining-blocks")
 	}
 	if vk.WantSample(nontrivial) {
-		vk.Sample(nontrivial, map[string]any{"image": img.key, "confirmed": img.confirmed, "added": img.upper, "image_tracker_round": peek.trackerRound,
+		vk.Sample(nontrivial, map[string]any{"image": img.key, "injected_faults": img.faults, "confirmed": img.confirmed, "added": img.upper, "image_tracker_round": peek.trackerRound,
 			"image_block_max": peek.blockMax, "reopened_latest": k, "history_blocks": c.n, "victim_schedule": c.trace})
 	}
 }
@@ -831,7 +956,8 @@ func c09Run(tb *testing.T, t *rapid.T, vk *vkCtx) {
 		cfg.CatchpointTracking = int64(rapid.SampledFrom([]int{1, 2}).Draw(t, "victim.catchpointTracking"))
 	}
 	rig := &c09Rig{tb: tb, cfg: cfg, genesis: w.Genesis, dir: dir, prefix: filepath.Join(dir, "victim"), occ: map[string]int{}, skipped: map[string]int{},
-		all: vkThorough(), seed: rapid.Uint64().Draw(t, "imageSeed"), maxTaken: vkN(20, 220), parked: rapid.IntRange(0, 3).Draw(t, "victim.parked") != 0}
+		all: vkThorough(), seed: rapid.Uint64().Draw(t, "imageSeed"), maxTaken: vkN(20, 220), parked: rapid.IntRange(0, 3).Draw(t, "victim.parked") != 0,
+		inject: rapid.IntRange(0, 2).Draw(t, "victim.faultInjection") != 0}
 	c.rig = rig
 	if err := rig.open(); err != nil {
 		t.Fatalf("ENGINE: OpenLedger(victim): %v", err)
@@ -839,14 +965,28 @@ func c09Run(tb *testing.T, t *rapid.T, vk *vkCtx) {
 	defer rig.close()
 	c.tracef("victim lookback=%d archival=%v catchpoints=%v(tracking %d) parked=%v blocks=%d", cfg.MaxAcctLookback, cfg.Archival, catchpoints, cfg.CatchpointTracking, rig.parked, n)
 	vk.Labelf("history:parked=%v", rig.parked)
+	vk.Labelf("history:fault-injection=%v", rig.inject)
 
 	next := basics.Round(1)
 	for next <= c.n {
 		switch rapid.IntRange(0, 9).Draw(t, "step") {
 		case 0, 1, 2:
+			armed := 0
+			if rig.inject && rapid.IntRange(0, 2).Draw(t, "failTrackerCommit") == 0 {
+				// the n-th COMMIT of the tracker DB from now fails: 1 = the registry's transaction, 2.. = the catchpoint tracker's
+				armed = rapid.SampledFrom([]int{1, 1, 1, 2, 3}).Draw(t, "failWhich")
+				rig.armTracker.Store(int32(armed))
+			}
+			before := rig.firedTrack.Load()
 			rig.commit()
-			c.tracef("commit -> tracker round %d (latest %d)", rig.l.LatestTrackerCommitted(), rig.l.Latest())
+			rig.armTracker.Store(0)
+			rig.snap("after-forced-commit", fmt.Sprintf("r%d", rig.l.Latest()), c09RoleMain, false)
+			rig.force.Store(0)
+			c.tracef("commit (fail tracker COMMIT #%d: fired %v) -> tracker round %d (latest %d)", armed, rig.firedTrack.Load() > before, rig.l.LatestTrackerCommitted(), rig.l.Latest())
 			vk.Label("victim:commit")
+			if armed > 0 {
+				vk.Labelf("victim:tracker-commit-failure-armed:fired=%v", rig.firedTrack.Load() > before)
+			}
 		case 3:
 			if rapid.IntRange(0, 3).Draw(t, "cleanReopen") == 0 {
 				rig.quiesce()
@@ -863,6 +1003,18 @@ func c09Run(tb *testing.T, t *rapid.T, vk *vkCtx) {
 		default:
 			burst := rapid.SampledFrom([]int{1, 1, 1, 2, 2, 3}).Draw(t, "burst")
 			first := next
+			failBlock, failTracker := false, false
+			if rig.inject {
+				failBlock = rapid.IntRange(0, 3).Draw(t, "failBlockCommit") == 0
+				failTracker = !rig.parked && rapid.IntRange(0, 3).Draw(t, "failTrackerCommitInBurst") == 0
+			}
+			if failBlock {
+				rig.armBlock.Store(1)
+			}
+			if failTracker {
+				rig.armTracker.Store(1)
+			}
+			beforeB, beforeT := rig.firedBlock.Load(), rig.firedTrack.Load()
 			for i := 0; i < burst && next <= c.n; i++ {
 				rig.upper.Store(uint64(next))
 				// AddBlock = evaluate + AddValidatedBlock (the delta is recomputed by this ledger, nothing is shared with the engine's node)
@@ -884,12 +1036,25 @@ func c09Run(tb *testing.T, t *rapid.T, vk *vkCtx) {
 			rig.snap("after-WaitForCommit", fmt.Sprintf("r%d", last), c09RoleMain, false)
 			rig.quiesce()
 			rig.snap("quiescent", fmt.Sprintf("r%d", last), c09RoleMain, false)
-			c.tracef("add %d..%d -> tracker round %d", first, last, rig.l.LatestTrackerCommitted())
+			rig.armBlock.Store(0)
+			rig.armTracker.Store(0)
+			rig.force.Store(0)
+			c.tracef("add %d..%d (fail block COMMIT: %v fired %v; fail tracker COMMIT: %v fired %v) -> tracker round %d", first, last,
+				failBlock, rig.firedBlock.Load() > beforeB, failTracker, rig.firedTrack.Load() > beforeT, rig.l.LatestTrackerCommitted())
+			if failBlock {
+				vk.Labelf("victim:block-commit-failure-armed:fired=%v", rig.firedBlock.Load() > beforeB)
+			}
+			if failTracker {
+				vk.Labelf("victim:tracker-commit-failure-armed:fired=%v", rig.firedTrack.Load() > beforeT)
+			}
 		}
 		c.drain(t)
 	}
 	rig.commit()
 	c.tracef("final commit -> tracker round %d (latest %d)", rig.l.LatestTrackerCommitted(), rig.l.Latest())
+	rig.force.Store(1)
+	rig.snap("final", fmt.Sprintf("r%d", rig.l.Latest()), c09RoleMain, false) // the end state is always reopened, too
+	rig.force.Store(0)
 	c.drain(t)
 	// the uncrashed victim itself
 	if diff, _, _ := c09CompareWindow(rig.l, c.u, w.Model); diff != "" {
@@ -912,6 +1077,8 @@ func c09Run(tb *testing.T, t *rapid.T, vk *vkCtx) {
 	vk.Add("crash_instants_seen", int64(instants))
 	vk.Add("images_reopened", int64(c.images))
 	vk.Add("histories", 1)
+	vk.Add("injected_block_db_commit_failures", int64(rig.firedBlock.Load()))
+	vk.Add("injected_tracker_db_commit_failures", int64(rig.firedTrack.Load()))
 	vk.Labelf("history:catchpoints=%v", catchpoints)
 	vk.Labelf("history:images-%s", c09Bucket(c.images))
 	if c.ntImgs == 0 {
@@ -937,8 +1104,10 @@ const c09Rule = "fault enumeration: Engine C histories of 10-26 (thorough: 10-40
 	"in bursts of 1-3 AddBlock calls interleaved with forced tracker commits and clean reopens (flush timer parked for 3/4 of the histories, free running for the rest); two spy trackers (first and last in the registry's tracker list) take byte copies of all ledger files at: " +
 	"block DB flushed (committedUpTo, before any tracker commit), prepareCommit (first/last), inside the tracker DB transaction before and after the real trackers' commitRound, right after every tracker DB transaction of a commit (wrapped store handle), postCommit, postCommitUnlocked before and after the catchpoint tracker's file work, " +
 	"and the feeding goroutine after every WaitForCommit/Wait return, between AddBlock calls and at quiescence (thorough: every instant; quick: a keyed 1/5 of the instants inside commits, 1/7 of the block-flush instants, 1/10 of the others, at most 20 per history). A copy is only taken while no other goroutine can be writing a database. " +
+	"Fault sequences: in 2/3 of the histories sqlite commit hooks are registered on the write connections of the block DB and the tracker DB (through database/sql Conn.Raw; the tracker store is rebuilt with the exported constructors and reloadLedger so that its handle is reachable) and drawn COMMITs are turned into rollbacks " +
+	"(the block flush of a burst; the registry's commit transaction or the 2nd/3rd tracker-DB transaction of a commit); the 4 instants after a failed COMMIT, the instant after every forced commit (1/6) and the final state are imaged as well. " +
 	"One evaluation = one image reopened with OpenLedger and checked: contiguous byte-identical block prefix 1..k, k >= every confirmed durable round, tracker round <= k (read from the image before opening), all account/resource/kv/creator lookups and totals at every served round equal the model of the prefix, " +
-	"remaining blocks added on top converge to the full history. Non-trivial: image taken after the block DB flush with the tracker DB behind, during prepareCommit, inside the tracker transaction, or around a catchpoint first stage. Distinct: by history, victim schedule and instant."
+	"remaining blocks added on top converge to the full history. Non-trivial: image taken after the block DB flush with the tracker DB behind, during prepareCommit, inside the tracker transaction, or around a catchpoint first stage, or after an injected COMMIT failure. Distinct: by history, victim schedule and instant."
 
 func TestVerif_C09_Crash(t *testing.T) {
 	vk := vkBegin(t, "C09")
